@@ -96,6 +96,24 @@ def run_case(case: dict, base: str | None) -> dict:
     obs: dict = {"id": case["id"]}
     try:
         ws.mkdir()
+        g0 = case.get("git") or {}
+        if g0.get("kind") in ("worktree", "submodule"):
+            # the outer repository first; the project directory is created by git as a checkout whose `.git` is a file
+            outer = ws / g0["outer"]
+            outer.mkdir(parents=True)
+            git(outer, "init", "-q", "--template=", ".")
+            git(outer, "commit", "-q", "--allow-empty", "-m", "outer")
+            rel = os.path.relpath(ws / g0["top"], outer)
+            if g0["kind"] == "worktree":
+                git(outer, "worktree", "add", "-q", "-b", "wt", rel)
+            else:
+                srcrepo = ws / "_submodule_src"
+                srcrepo.mkdir()
+                git(srcrepo, "init", "-q", "--template=", ".")
+                git(srcrepo, "commit", "-q", "--allow-empty", "-m", "src")
+                git(outer, "-c", "protocol.file.allow=always", "submodule", "add", "-q", "../_submodule_src", rel)
+            if not (ws / g0["top"] / ".git").is_file():
+                raise RuntimeError("the checkout's .git is not a file")
         for d in case.get("dirs", []):
             (ws / d).mkdir(parents=True, exist_ok=True)
         for rel, text in case["files"].items():
@@ -106,7 +124,11 @@ def run_case(case: dict, base: str | None) -> dict:
         obs["git_ls"] = []
         if g:
             top = ws / g["top"]
-            git(top, "init", "-q", "--template=", ".")
+            if not g.get("kind"):
+                git(top, "init", "-q", "--template=", ".")
+            elif g.get("outer_tracked"):
+                git(ws / g["outer"], "add", "-f", "--", *[os.path.relpath(ws / t, ws / g["outer"]) for t in g["outer_tracked"]])
+                git(ws / g["outer"], "commit", "-q", "-m", "outer files")
             git(top, "config", "user.name", "v")
             git(top, "config", "user.email", "v@v")
             if g.get("tracked"):
